@@ -669,6 +669,12 @@ class IncrementalExecutor(Executor[DeliveryGroupMap]):
         item_stream = ItemStream(path, stream_usage.label, queue, index)
 
         self.streams.append(item_stream)
+        if self.aborted:
+            # discovered by a field completion that has been left to settle in the
+            # background after this executor was aborted: nobody will consume it
+            abort_result = queue.abort()
+            if self.is_awaitable(abort_result):
+                self.settle_in_background([cast("Awaitable[Any]", abort_result)])
         return True
 
     def build_stream_item_queue(
